@@ -468,9 +468,52 @@ func runC09(c *Ctx) {
 			c.Check(func() *Failure { return evalIsProper(ic) })
 		}
 	}
+	// the view representations stay live: query, edit the underlying graph, query again
+	var vcs []viewCase
+	for n := 3; n <= 5; n++ {
+		vcs = append(vcs, viewHistoryCases(n, "c09-values")...)
+	}
+	c.parFor(int64(len(vcs)), 16, func(lo, hi int64) {
+		for _, vc := range vcs[lo:hi] {
+			vc := vc
+			c.Check(func() *Failure { return evalViewHistory(vc, observeC09) })
+		}
+	})
+	c.SetCount("view_histories", int64(len(vcs)))
 	c.Sample("graph", giCase{N: 6, Mask: 0x5a3c, G6: g6(6, 0x5a3c), Rep: "sparse"})
 	c.Sample("greedy", giCase{N: 4, Mask: 0x2d, Rep: "dense", Order: []int{2, 0, 3, 1}})
 	c.Assume("graphs with n >= 8 are not covered")
+}
+
+// observeC09: the witness-free values of the C09 functions (witnesses may legitimately differ between representations).
+func observeC09(g graph.Graph) string {
+	chi, col := graph.ChromaticNumber(g)
+	d, order := graph.Degeneracy(g)
+	m := mgFromGraph(g)
+	okOrder := g.N() == 0 || isPerm(order, g.N())
+	if okOrder {
+		for i, v := range order {
+			before := 0
+			for _, u := range order[:i] {
+				if m.has(u, v) {
+					before++
+				}
+			}
+			if before > d {
+				okOrder = false
+			}
+		}
+	}
+	ci, _ := graph.ChromaticIndex(g)
+	k2, _ := graph.IsKColorable(g, 2)
+	mx, _ := graph.GreedyColor(g, func() []int {
+		o := make([]int, g.N())
+		for i := range o {
+			o[i] = i
+		}
+		return o
+	}())
+	return fmt.Sprint(graph.CliqueNumber(g), graph.IndependenceNumber(g), chi, properModel(m, col) || g.N() == 0, d, okOrder, ci, k2, mx)
 }
 
 func stringsOverInts(alpha []int, maxLen int, emit func(s []int)) {
@@ -496,6 +539,10 @@ func replayC09(kind string, raw json.RawMessage) *Failure {
 		var gc giCase
 		json.Unmarshal(raw, &gc)
 		return evalC09(gc, nil)
+	case "view-history":
+		var vc viewCase
+		json.Unmarshal(raw, &vc)
+		return evalViewHistory(vc, observeC09)
 	case "greedy":
 		var gc giCase
 		json.Unmarshal(raw, &gc)
